@@ -85,7 +85,10 @@ func (r *recorder) run(text string, doc interface{}, reps int, canary string) {
 	}
 	r.h++
 	jp, cerr, co := compileObs(text)
-	ev := map[string]interface{}{"op": "Compile", "h": r.h, "text": bytesToCps(text), "ok": co.Kind == "ok", "ast": []interface{}{}, "offset": -1}
+	ev := map[string]interface{}{"op": "Compile", "h": r.h, "text": bytesToCps(text), "ok": co.Kind == "ok", "ast": []interface{}{}, "offset": -1, "toks": []interface{}{}}
+	if direct(func() (interface{}, error) { ev["toks"] = realTokens(text); return nil, nil }).Kind != "ok" {
+		ev["toks"] = []interface{}{}
+	}
 	if se, ok := cerr.(jmespath.SyntaxError); ok {
 		ev["offset"] = se.Offset
 	}
